@@ -447,20 +447,27 @@ def run_replay(prop, conf, path):
     total = dict(evaluations=0, distinct_nontrivial=0, rule="replay of " + path, samples=[case], findings=[],
                  mismatches=[], distribution={}, correspondence={}, searched=1, notes=[])
     if not case:
-        total["notes"].append("replay file names no case; re-running the quick tier")
-        return run_engines(prop, conf, "quick", 0)
+        total["notes"].append("replay file names no case; re-running the tier and seed it was written by")
+        return run_engines(prop, conf, payload.get("tier") or "quick", int(payload.get("seed") or 0))
     if case.startswith("opt "):
         r = opt_run(prop, [case], "replay")
         total["evaluations"] = len(r["metas"])
         total["findings"] = [f for f in r["findings"] if prop in f["properties"]]
         total["mismatches"] = r["mismatches"]
     else:
+        done = False
         for name, fn in REPLAYERS.items():
             if case.startswith(name + " "):
                 r = fn(prop, conf, case)
                 total["evaluations"] = r["evaluations"]
                 total["findings"] = r["findings"]
                 total["mismatches"] = r["mismatches"]
+                done = True
+        if not done:
+            # command-line and table cases are not replayed one by one: the whole quick tier runs again (the case is in it:
+            # the cli engine's cases are drawn from the seed, the table engine's domain is finite and enumerated)
+            total = run_engines(prop, conf, payload.get("tier") or "quick", int(payload.get("seed") or 0))
+            total.setdefault("notes", []).append("replay of a %s case: the quick tier was re-run" % case.split(" ")[0])
     return total
 
 
